@@ -90,6 +90,8 @@ impl Ctx {
     let verif_dir = PathBuf::from(std::env::var("VERIF_DIR").unwrap_or_else(|_| "/verif".into()));
     let (o, e) = capture_std();
     crate::calls::install_panic_hook();
+    let _ = std::fs::create_dir_all(verif_dir.join("target"));
+    crate::calls::install_abort_dump(&verif_dir.join("target").join(format!("abort_{}.jsonl", prop)));
     {
       let dir = verif_dir.clone();
       let prop_s = prop.to_string();
